@@ -455,6 +455,32 @@ def _only_atoms(t):
 def check_scalar_compare(F, fid):
     """E1 over the three orderings: compare<T>(l, r) must return -,0,+ for l<r, l=r, l>r."""
     S = Sym(F, opaque=lambda x: F.fn.get(x) is None)
+    # std::less<> applies `a < b`: for a class or enumeration type that is whatever operator< overload resolution finds.  A
+    # user-declared operator< on the compared type must be the order of the underlying values (a partial order -- subset inclusion of
+    # flag sets, say -- makes incomparable keys compare equal: they share a node)
+    f0 = F.fn.get(fid) or {}
+    pts = [(p_.get('t') or '').replace('const ', '').replace('&', '').strip() for p_ in f0.get('params', [])]
+    if len(pts) == 2 and pts[0] == pts[1] and (pts[0] in F.enums or pts[0] in F.rec):
+        for g in F.fn.values():
+            if g['name'] != 'operator<' or g.get('body') is None:
+                continue
+            gp = [(p_.get('t') or '').replace('const ', '').replace('&', '').strip() for p_ in g.get('params', [])]
+            recv = [g.get('parent')] if g.get('parent') and not g.get('static') else []
+            if recv + gp != [pts[0], pts[0]]:
+                continue
+            def plain(t):
+                while isinstance(t, tuple) and t and (t[0] == 'castto' or (t[0] in ('call', 'vcall') and contracts.fn_simple(t[1]) in ('rep', 'to_underlying') and len(t[3]) == 1)):
+                    t = t[2] if t[0] == 'castto' else t[3][0]
+                return t
+            try:
+                go = S.run(g['id'])
+            except Unsupported:
+                go = []
+            ok_lt = len(go) == 1 and go[0][1] == 'return' and not go[0][0].conds and isinstance(plain(go[0][2]), tuple) \
+                and plain(go[0][2])[:2] == ('op', '<') and [plain(x) for x in plain(go[0][2])[2:]] == [('param', 0), ('param', 1)]
+            if not ok_lt:
+                return False, (f'the values are ordered with std::less<>, which applies the user-declared {contracts.short(g["id"])} '
+                               f'[{g["loc"]}]: that is not the order of the underlying values, so keys it leaves incomparable compare equal')
     outs = S.run(fid)
     table = {}
     for o in ('<', '=', '>'):
